@@ -19,6 +19,7 @@ EXPLANATION = (
     "beside a driver 'B' evaluated over {none, own name, other name, other case, longer, empty} = (T,T,F,F,F,F), and each constructed driver "
     'reports the name it was built with; a constant-true implementation is the catch-all device; every concrete routing.Device subclass overrides '
     'accepts and message_from_client. C04.WRITE is shared with C05.WRITE (who may write the tables).'
+    ' C04.WIRE: every registered message kind is parsed (abstractly, by the real from_xml and constructors) from an element that also carries attributes named like the routing flags (from_client="", from_device="1") and a vendor attribute: the flags read off the parsed object must be the True/False of its class - a peer cannot re-label the direction of its message.'
     ' C04.ISOLATED: two routers are constructed side by side in one interpreter state (2 clients and 2 devices each): the tables are per router and a message processed by one is never handed to the peers of the other (class-level tables are one object for all routers).'
 )
 NOT_DECIDED = "exactly-once under histories that register the same device object twice."
